@@ -34,7 +34,7 @@
 EXTENDS Redaction
 
 CONSTANTS Versions,     \* room versions enumerated
-          Family,       \* "ops" | "sib" | "tamper"
+          Family,       \* "ops" | "num" | "sib" | "tamper"
           ShapeIds,     \* event shapes (type x state key x content) enumerated
           VariantIds,   \* prev/auth/depth/unsigned variants enumerated
           MaxOps,       \* ops: length of the behaviours
@@ -134,9 +134,26 @@ Variant(w) ==
       [] w = 4 -> [prev |-> "p2", auth |-> "a2", depth |-> "d2", unsigned |-> "u2"]
 AllVariants == 1..4
 
-ProtoOf(i, w) ==
+\* --- numbers in the content (family num) --------------------------------------------------------------
+\* Room versions 6+ ("Canonical JSON" of room version 6): an event is canonical JSON: every number is an integer
+\* in [-(2^53)+1, (2^53)-1], written without fraction, exponent or negative zero.  Anything else is not an
+\* event of such a room: a receiving server refuses it, so EventBuilder.Build must not hand it out.  The
+\* content key zz_num carries one number of the named class (nested: the fraction sits in an array in an object).
+CanonicalNums == {"max", "min", "zero"}            \* 9007199254740991, -9007199254740991, 0
+NonCanonicalNums == {"frac", "exp", "capexp", "big", "negbig", "negzero", "fraczero", "nested"}
+                                                  \* 1.5, 1e3, 1E2, 2^53, -(2^53), -0, 2.0, {"a":[1.5]}
+AllNumKinds == CanonicalNums \cup NonCanonicalNums
+NumKinds == IF Family = "num" THEN AllNumKinds ELSE {"none"}
+NumOf(e) == IF "zz_num" \in DOMAIN e.con THEN e.con["zz_num"] ELSE "none"
+\* what a receiving server of the room version accepts as an event at all
+Acceptable(v, e) == ~EnforcedCanonJSON(v) \/ NumOf(e) \notin NonCanonicalNums
+\* Build refuses the proto-events that cannot become an event
+BuildRefuses(v, p) == EnforcedCanonJSON(v) /\ p.num \in NonCanonicalNums
+
+ProtoOf(i, w, n) ==
     LET s == Shape(i)  x == Variant(w) IN
-    [type |-> s.type, sk |-> s.sk, redacts |-> s.redacts, con |-> s.con, tpi |-> s.tpi,
+    [type |-> s.type, sk |-> s.sk, redacts |-> s.redacts, tpi |-> s.tpi, num |-> n,
+     con |-> IF n = "none" THEN s.con ELSE [k \in DOMAIN s.con \cup {"zz_num"} |-> IF k = "zz_num" THEN n ELSE s.con[k]],
      prev |-> x.prev, auth |-> x.auth, depth |-> x.depth, unsigned |-> x.unsigned,
      room |-> "r1", sender |-> "alice", ts |-> "t1", origin |-> "hs1", sigkey |-> "k1"]
 
@@ -197,8 +214,8 @@ Log(op, arg, e2, r2) ==
 NoOut == [kind |-> "none"]
 
 Init ==
-    /\ \E v \in Versions, w \in VariantIds : \E i \in ShapesOf(v) :
-          LET p == ProtoOf(i, w) IN
+    /\ \E v \in Versions, w \in VariantIds, n \in NumKinds : \E i \in ShapesOf(v) :
+          LET p == ProtoOf(i, w, n) IN
           /\ ver = v
           /\ proto = p
           /\ built = BuildEvent(v, p, "E1")
@@ -209,7 +226,8 @@ Init ==
     /\ hist = <<>>
     /\ wire = NoEvent
     /\ out = NoOut
-    /\ phase = IF Family = "ops" THEN "ops" ELSE "pre"
+    /\ phase = IF BuildRefuses(ver, proto) THEN "refused"       \* no event: nothing else can happen
+              ELSE IF Family \in {"ops", "num"} THEN "ops" ELSE "pre"
 
 \* --- operations (each is one public call on the PDU) -----------------------------------------------------------
 OpNames == {"RU", "RT", "RH", "SU1", "SU2", "SF", "AS1", "AS2", "RD"}
@@ -391,8 +409,8 @@ TamperNext ==
         /\ Tamper(T, hm)
 
 Next ==
-    \/ (Family = "ops" /\ OpsNext)
-    \/ (Family # "ops" /\ Pre)
+    \/ (Family \in {"ops", "num"} /\ OpsNext)
+    \/ (Family \notin {"ops", "num"} /\ Pre)
     \/ (Family = "sib" /\ \E f \in SibFields : Sibling(f))
     \/ (Family = "tamper" /\ TamperNext)
     \/ (Family = "tamper" /\ ParseTampered)
@@ -414,6 +432,12 @@ PRoundTrip ==
         /\ ~redacted
         /\ DropTop(ev, {"unsigned"}) = DropTop(built, {"unsigned"})
         /\ \A s \in DOMAIN sigs : SigValid(s)
+\* C03: Build either refuses or hands out an event every receiving server accepts (and for which every clause
+\* above holds); it refuses nothing that can be an event
+PBuildOrRefuse ==
+    /\ (phase # "refused" => /\ Acceptable(ver, built)
+                             /\ (ParseUntrusted(ver, built).red = FALSE))
+    /\ (phase = "refused" => ~Acceptable(ver, built))
 \* C03: redaction keeps identity and signatures
 PRedactKeeps ==
     Family # "tamper" => /\ Id(ver, ev) = Id(ver, built)
@@ -473,5 +497,5 @@ PSigsTogether == TDone => (out.valid = DOMAIN sigs \/ out.valid = {})
 TypeOK ==
     /\ WellFormed(ev) /\ WellFormed(built)
     /\ Len(ids) = Len(hist) + 1
-    /\ phase \in {"ops", "pre", "sib", "tamper", "parse", "done"}
+    /\ phase \in {"ops", "pre", "sib", "tamper", "parse", "done", "refused"}
 =============================================================================
